@@ -682,6 +682,12 @@ pub fn generate(seed: u64, tier: Tier, p: &Profile) -> Scenario {
                 // the same certificate handed over a second time (refused, or - for a set - held once)
                 plan.pre_tail.push(Op::Cert(c.clone(), None));
             }
+            if wit.is_none() && !g.plutus_ids.is_empty() && g.r.chance(1, 10) {
+                // a mistaken first attempt: a Plutus witness offered for a certificate that needs none (refused)
+                let s = *g.r.pick(&g.plutus_ids.clone());
+                let w = g.wit_plutus(s, DatumUse::None);
+                plan.pre.push(Op::Cert(c.clone(), Some(w)));
+            }
             plan.pre.push(Op::Cert(c, wit));
         }
     }
@@ -703,6 +709,14 @@ pub fn generate(seed: u64, tier: Tier, p: &Profile) -> Scenario {
                     }
                 }
                 continue;
+            }
+            // "withdraw zero": a script account is withdrawn from only to make its script run
+            let amt = if matches!(c, Cred::Script(_)) && g.r.chance(1, 3) { 0 } else { amt };
+            if matches!(c, Cred::Key(_)) && !g.plutus_ids.is_empty() && g.r.chance(1, 12) {
+                // a mistaken first attempt: a Plutus witness offered for a key account (refused)
+                let s = *g.r.pick(&g.plutus_ids.clone());
+                let w = g.wit_plutus(s, DatumUse::None);
+                plan.pre.push(Op::Wdr(c.clone(), amt, Some(w)));
             }
             let wit = match &c {
                 Cred::Script(s) => {
